@@ -6,8 +6,6 @@ package probe
 
 import (
 	"context"
-	"fmt"
-	"hash/fnv"
 	"runtime"
 )
 
@@ -121,16 +119,41 @@ type Result struct {
 // Hash is the deterministic output function: output i of function id applied
 // to args.
 func Hash(id string, i int, args []uint64) uint64 {
-	h := fnv.New64a()
-	fmt.Fprintf(h, "%s/%d", id, i)
+	// FNV-1a over "id/i,arg,arg..." - written without fmt or hash/fnv objects:
+	// user functions call this on task goroutines, and fmt's sync.Pool would
+	// add happens-before edges between tasks that the race build (C12) must
+	// not see.
+	const off, prime = 14695981039346656037, 1099511628211
+	h := uint64(off)
+	mix := func(b byte) { h ^= uint64(b); h *= prime }
+	for k := 0; k < len(id); k++ {
+		mix(id[k])
+	}
+	mix('/')
+	num := func(v uint64) {
+		var buf [20]byte
+		n := len(buf)
+		for {
+			n--
+			buf[n] = byte('0' + v%10)
+			v /= 10
+			if v == 0 {
+				break
+			}
+		}
+		for ; n < len(buf); n++ {
+			mix(buf[n])
+		}
+	}
+	num(uint64(i))
 	for _, a := range args {
-		fmt.Fprintf(h, ",%d", a)
+		mix(',')
+		num(a)
 	}
-	v := h.Sum64()
-	if v == 0 {
-		v = 1
+	if h == 0 {
+		h = 1
 	}
-	return v
+	return h
 }
 
 // Out returns output i.
